@@ -406,6 +406,7 @@ impl<'a> LazyValueRef<'a> {
         match self {
             LazyValueRef::Null => NanBox::null(),
             LazyValueRef::Bool(b) => NanBox::bool(*b),
+            LazyValueRef::Number(n) if n.is_nan() => NanBox::error(ErrorCode::ReadError),
             LazyValueRef::Number(n) => NanBox::number(*n),
             LazyValueRef::String(StringRef { len, .. }) => {
                 let ptr = self as *const _;
